@@ -10,14 +10,15 @@ from ..gen_lean import Def
 from ..runner import Corr, Failure
 from . import isect_common as ic
 
-LEAN_MODULES = ['SvgVerif.Props.C11', 'SvgVerif.Props.C11Model']
+LEAN_MODULES = ['SvgVerif.Props.C11', 'SvgVerif.Props.C11Model', 'SvgVerif.Props.C11PointToT']
 
 ASSUMPTIONS = [
     'np.roots (through polyroots01) is an oracle: soundness of bezier_by_line_intersections and of the u1transform route of Arc.intersect is '
     'proved for every value the oracle returns that IS a root of the polynomial handed to it; how close a float "root" is to a root is sampled',
     'bezier_intersections: the theorem bounds the distance of a reported pair by the widths of two boxes of area < tol_deC (reported_close), '
     'not by 1e-5 of the size; bezier_bounding_box / halve_bezier enter as the contract EnvSound (containment: C08, restriction: C09/C19)',
-    'Arc.point_to_t, the closed forms of Arc.intersect(Line) for unrotated arcs and the circle-circle case split are not modelled: sampled only',
+    'Arc.point_to_t is modelled and proved sound for points ON the ellipse under the exact reading of np.isclose (pointToT_sound); the '
+    'six-way case split of the circle-circle branch and the vertical-line branch of Arc.intersect(Line) are sampled only',
     'numpy phase()/degrees(): phase2t is modelled over R with pi = Real.pi and compared exactly with a rational stand-in for pi',
 ]
 
@@ -633,8 +634,79 @@ def corr_pathint(ctx):
     return c
 
 
+def corr_arcptt(ctx):
+    """Arc.point_to_t, the real method, on exact rationals (exactnum.Q/QC; sqrt, degrees(acos), degrees(asin) and np.isclose
+    replaced by exact stand-ins on both sides) against Model.ArcPointToT.pointToT"""
+    from ..exactnum import Q, QC, qstr, sqrt_standin
+    spt, P = ctx.spt, ctx.spt.path
+    r = ctx.rng('corr/arcptt')
+    c = Corr('Arc.point_to_t')
+    lines, impl = [], []
+
+    def my_isclose(a, b, rtol=Fr(1, 10 ** 5), atol=Fr(1, 10 ** 8), **k):
+        rtol, atol = Fr(rtol), Fr(atol)
+        if isinstance(a, QC) or isinstance(b, QC):
+            a, b = QC.lift(a), QC.lift(b)
+            dx, dy = (a.real - b.real).v, (a.imag - b.imag).v
+            assert rtol == 0
+            return dx * dx + dy * dy <= atol * atol
+        a, b = Q(a).v if not isinstance(a, Q) else a.v, Q(b).v if not isinstance(b, Q) else b.v
+        return abs(a - b) <= atol + rtol * abs(b)
+    saved = (P.sqrt, P.acos, P.asin, P.degrees, P.np.isclose)
+    try:
+        P.sqrt = sqrt_standin
+        P.acos = lambda x: ('acos', x)
+        P.asin = lambda x: ('asin', x)
+        P.degrees = lambda tg: (1 - tg[1]) * 90 if tg[0] == 'acos' else tg[1] * 90
+        P.np.isclose = my_isclose
+        quarters = [Fr(k, 4) for k in range(-5, 6)]
+        for it in range(ctx.n(400, 6000)):
+            cx, cy = Fr(r.randint(-3, 3)), Fr(r.randint(-3, 3))
+            rx, ry = Fr(r.randint(1, 4)), Fr(r.randint(1, 4), r.choice([1, 2]))
+            theta = Fr(r.choice([0, 30, -90, 135, -180, 180, 45, -45, 270, -400]))
+            delta = Fr(r.choice([90, -90, 180, -180, 270, -270, 45, 359, -30, 720]))
+            rot = r.choice([0.0, 0.0, 0.0, 0.0, 30.0])
+            ax, ay = r.choice(quarters), r.choice(quarters)
+            cls = r.choice(['grid', 'match', 'match', 'match', 'near', 'start', 'end', 'far'])
+            if cls in ('match', 'near'):
+                # the four ways an x-candidate and a y-candidate angle can coincide under the stand-ins acos -> 90(1-x), asin -> 90x;
+                # a wide ellipse so that the distance pre-filter (with the stand-in sqrt) lets the point through
+                rx, ry = Fr(1), Fr(r.choice([4, 5, 6]))
+                a = Fr(r.randint(-4, 4), 4)
+                ax, ay = r.choice([(a, 1 - a), (a, 1 + a), (a, a - 1), (a, -1 - a)])
+            if cls == 'near':
+                ay += Fr(r.choice([1, -1, 1000]), 10 ** r.choice([7, 11]))
+            px, py = cx + rx * ax, cy + ry * ay
+            start = (cx + rx, cy)
+            end = (cx, cy + ry)
+            if cls == 'start':
+                px, py = start[0] + Fr(r.choice([0, 1, 20]), 10 ** 7), start[1]
+            elif cls == 'end':
+                px, py = end[0], end[1] - Fr(r.choice([0, 1, 20]), 10 ** 7)
+            elif cls == 'far':
+                px, py = cx + rx * 7, cy - ry * 5
+            arc = P.Arc.__new__(P.Arc)
+            arc.start, arc.end, arc.center = QC(*start), QC(*end), QC(cx, cy)
+            arc.radius = QC(rx, ry)
+            arc.rotation = rot
+            arc.theta, arc.delta = Q(theta), Q(delta)
+            try:
+                t = P.Arc.point_to_t(arc, QC(px, py))
+                out = 'none' if t is None else 't ' + qstr(Q(Fr(t)) if isinstance(t, float) else t)
+            except ValueError:
+                out = 'valueerror'
+            args = [start[0], start[1], end[0], end[1], cx, cy, rx, ry, Fr(rot), theta, delta, px, py]
+            lines.append('arcptt ' + ' '.join(qstr(Q(a)) for a in args))
+            impl.append(out)
+            c.count('%s/%s' % (cls, out.split(' ')[0]))
+    finally:
+        P.sqrt, P.acos, P.asin, P.degrees, P.np.isclose = saved
+    c.compare(lines, [m.strip() for m in common.driver(lines)], impl)
+    return c
+
+
 def correspond(ctx):
-    return [corr_lineline(ctx), corr_hull(ctx), corr_bezline(ctx), corr_bezint(ctx), corr_phase2t(ctx), corr_pathint(ctx)]
+    return [corr_lineline(ctx), corr_hull(ctx), corr_bezline(ctx), corr_bezint(ctx), corr_phase2t(ctx), corr_pathint(ctx), corr_arcptt(ctx)]
 
 
 def _tolerated(spt, a, b, e):
